@@ -8,7 +8,64 @@ TRAPS = ["TrapCancelBetween", "TrapLateResponse", "TrapCancelInRecv", "TrapCance
 WANT = {"misdelivery", "hang", "leak", "errors"}
 
 
+def free_callers(ctx):
+    """Real parallelism: many goroutines call one client through Roundtrip / Request / Batch at the same time (spec/FreeCalls.tla)."""
+    import re
+    ctx.tlc("FreeCalls", "FreeCalls_mc.cfg", workers=4)
+    info = {}
+    for race in (False, True):
+        binary = ctx.build_driver("client", race=race)
+        tag = "race" if race else "plain"
+        tpath, opath = os.path.join(ctx.work, "free_%s.ndjson" % tag), os.path.join(ctx.work, "free_%s_out.ndjson" % tag)
+        rounds = (20 if race else 60) if ctx.quick else (150 if race else 600)
+        rc, out = ctx.run_driver(binary, test_run="^TestFreeCallers$", env={"VERIF_FREE_TRACE": tpath, "VERIF_OUT": opath, "VERIF_FREE_ROUNDS": rounds,
+                                                                           "GORACE": "halt_on_error=0 exitcode=0"}, timeout=1500, ok_rc=(0, 1, 2, 66))
+        fatal = re.search(r"^fatal error: (.*)$", out, re.M) or re.search(r"^panic: (.*)$", out, re.M)
+        if fatal:
+            ctx.violation("free:process-died:" + fatal.group(1)[:60], "the client process died under concurrent callers (%s): %s" % (tag, fatal.group(0)), {"output": out[-3000:]})
+            continue
+        if race and "WARNING: DATA RACE" in out:
+            def racing_frames(b):
+                ls = b.split("==================")[0].splitlines()
+                return [ls[i + 1].strip() for i, l in enumerate(ls[:-1]) if re.match(r"\s*(Previous )?(read|write|Read|Write|atomic read|atomic write).* at 0x", l)]
+            libs = [b for b in out.split("WARNING: DATA RACE")[1:] if any(f.startswith("github.com/ovh/kmip-go/") for f in racing_frames(b))]
+            if libs:
+                fr = next(f for f in racing_frames(libs[0]) if f.startswith("github.com/ovh/kmip-go/"))
+                ctx.violation("free:data-race:" + fr.split("(")[0] + fr[len(fr.split("(")[0]):].split()[0][:40], "the race detector reports unsynchronised access in library code under concurrent callers: %s" % libs[0][:1500], {"report": libs[0][:4000]})
+                continue
+        if rc != 0 or not os.path.exists(opath):
+            raise vlib.Inconclusive("free-callers driver failed (%s) rc=%s\n%s" % (tag, rc, out[-2000:]))
+        log = vlib.read_ndjson(tpath)
+        ncall = len([x for x in log if x["ev"] == "call"])
+        summ = [x for x in vlib.read_ndjson(opath) if x.get("summary")]
+        if not summ or ncall != summ[0]["workers"] * summ[0]["rounds"]:
+            raise vlib.Inconclusive("free-callers driver logged %d calls, summary %s" % (ncall, summ))
+        cfg = os.path.join(ctx.work, "spec", "FreeCalls_trace_%s.cfg" % tag)
+        open(cfg, "w").write("SPECIFICATION TraceSpec\nCONSTANTS\n  Callers = {%s}\n  Ids = {%s}\nCONSTRAINT HighWater\nPOSTCONDITION TraceAccepted\nCHECK_DEADLOCK FALSE\n" % (
+            ", ".join(str(k) for k in range(1, summ[0]["workers"] + 1)), ", ".join(str(i) for i in range(1, ncall + 1))))
+        t = ctx.tlc("TraceFreeCalls", os.path.basename(cfg), workers=1, env={"TRACE_FILE": tpath}, must_pass=False, count=False, label="free_" + tag)
+        if not t.ok:
+            m = re.search(r"REJECTED_AT\D+(\d+)", t.out)
+            if not m:
+                raise vlib.Inconclusive("free-callers trace validation failed:\n" + t.out[-2000:])
+            pos = int(m.group(1))
+            ev = log[pos - 1]
+            mine = [x for x in log[:pos - 1] if x.get("k") == ev.get("k")][-1:]
+            if ev["ev"] == "ret" and ev["outcome"] == "resp":
+                ctx.violation("free:misdelivery", "concurrent callers (%s): call %s of goroutine %s returned the response to request %s (api %s)" % (
+                    tag, mine[0]["id"] if mine else "?", ev["k"], ev["id"], mine[0].get("api") if mine else "?"), {"event": ev, "call": mine})
+            else:
+                raise vlib.Inconclusive("free-callers trace rejected at %s" % json.dumps(ev))
+        else:
+            ctx.traces_validated += ncall
+        info[tag] = {"callers": summ[0]["workers"], "calls": ncall, "errors": len([x for x in log if x["ev"] == "ret" and x["outcome"] == "err"])}
+    ctx.extra_cov = dict(getattr(ctx, "extra_cov", {}), free_callers=info,
+                         free_rule="real parallelism (no controller): 4 x GOMAXPROCS goroutines call one client at the same time through Roundtrip / Request / Batch against an in-memory server answering every request with its own id; every call returns its own id or an error (validated by TLC against FreeCalls.tla); the same run under the race detector reports no unsynchronised access in library code")
+
+
 def run(ctx, pid="C10", traps=TRAPS, want=WANT, cfgs=("Client_c10q.cfg", "Client_c10.cfg"), with_close=0, extra=None):
+    if pid == "C10":
+        free_callers(ctx)
     ctx.tlc("ClientConn", cfgs[0] if ctx.quick else cfgs[1], coverage=not ctx.quick)
     seeds = [ctx.seed, ctx.seed + 100] if ctx.quick else [ctx.seed * 10 + i for i in range(8)]
     scheds, missing = sc.trap_schedules(ctx, "Client_trap.cfg", traps, seeds, mode="sim", module="MCClient", compiler=cc.schedule_from_states, depth=120)
